@@ -30,15 +30,15 @@ from txtorcon.endpoints import TorClientEndpoint, _create_socks_endpoint
 PROPERTY = 'C18'
 
 ENTRIES = ['9050', '127.0.0.1:9051', 'unix:/s', '9052 IsolateDestAddr', '9053 IPv6Traffic PreferIPv6', 'unix:/t WorldWritable',
-           'auto IsolateDestAddr', '[::1]:9060 IsolateSOCKSAuth', '905']
+           'auto IsolateDestAddr', '[::1]:9060 IsolateSOCKSAuth', '905', 'unix:"/p q/s" WorldWritable']
 DEFAULT_OPTS = '9050 IsolateDestAddr IsolateDestPort'      # a built-in default that carries option words
 
 
 def client_can_use(e):
     """legal SOCKSPort lines this client cannot turn into an endpoint: they are not 'usable', but must survive a re-listing"""
-    tok = e.split()[0]
+    tok = first_word(e)
     return not (tok == 'auto' or tok.startswith('['))
-ENTRY_POINTS = ['create', 'from_connection', 'tor_default', 'config_create']
+ENTRY_POINTS = ['create', 'from_connection', 'tor_default', 'config_create', 'config_create_after_event']
 
 
 def existing_configs(tier):
@@ -61,8 +61,17 @@ def describe(ep):
     return ('?', repr(ep))
 
 
+def first_word(e):
+    """the address part of a SOCKSPort line; a unix path that contains spaces is written unix:"..." """
+    if e.startswith('unix:"') and '"' in e[6:]:
+        return e[:e.index('"', 6) + 1]
+    return e.split()[0]
+
+
 def entry_addr(e):
-    tok = e.split()[0]
+    tok = first_word(e)
+    if tok.startswith('unix:"'):
+        return ('unix', tok[6:-1])
     if tok.startswith('unix:'):
         return ('unix', tok[5:])
     if ':' in tok:
@@ -75,6 +84,11 @@ def run_choose(kind, entries, requested, entry_point):
     viol = []
     log = []
     with World() as w:
+        after_event = entry_point == 'config_create_after_event'
+        if after_event:
+            entry_point = 'config_create'
+            if kind != 'list':
+                return None
         if entry_point == 'config_create':
             if kind == 'default':
                 return None
@@ -92,6 +106,11 @@ def run_choose(kind, entries, requested, entry_point):
             sim.conf['__SocksPort'] = ['9050'] if kind == 'default' else ([DEFAULT_OPTS] if kind == 'default-opts' else [])
             sim.conf_types['__SocksPort'] = 'Dependent'
             finish_bootstrap(proto)
+        if after_event:
+            # another controller has (re)set the SOCKS ports meanwhile: Tor announced the lines it now has
+            from refs import ctlcodec
+            sim.event_bytes(ctlcodec.encode_event('CONF_CHANGED', 'multi', [''] + ['SocksPort=%s' % e for e in entries]))
+            sim.pump()
         base = len(sim.commands)
         store_before = list(sim.conf['SocksPort'])
         effective = list(entries) if entries else (['9050'] if kind == 'default' else ([DEFAULT_OPTS] if kind == 'default-opts' else []))
@@ -122,12 +141,12 @@ def run_choose(kind, entries, requested, entry_point):
         cmds = sim.commands[base:]
         setconfs = [c for c in cmds if c.upper().startswith('SETCONF')]
         feat_cfg = kind if kind != 'list' else ('n=%d%s' % (len(entries), '/opts' if any(' ' in e for e in entries) else ''))
-        feat = '%s/%s/%s' % (entry_point, feat_cfg, 'req-none' if requested is None else
+        feat = '%s/%s/%s' % (entry_point + ('/after-CONF_CHANGED' if after_event else ''), feat_cfg, 'req-none' if requested is None else
                              ('req-present-line' if requested in effective and ' ' in requested else
-                              ('req-present' if any(e.split()[0] == requested for e in effective) else 'req-absent')))
+                              ('req-present' if any(first_word(e) == requested for e in effective) else 'req-absent')))
         # (a requested line with the port of an existing entry but other option words is not in the alphabet: whether that is
         # "the port Tor already has" is not settled by the property)
-        usable = [e for e in effective if client_can_use(e) and (requested is None or requested in (e, e.split()[0]))]
+        usable = [e for e in effective if client_can_use(e) and (requested is None or requested in (e, first_word(e)))]
         if len(rec.fires) != 1:
             viol.append(('result-fired-%d-times' % len(rec.fires), feat, 'existing %r requested %r' % (entries, requested)))
         elif rec.kind == 'err':
@@ -154,7 +173,7 @@ def run_choose(kind, entries, requested, entry_point):
                     if keys != {'socksport'}:
                         viol.append(('setconf-other-keys', feat, '%r' % (setconfs[0],)))
                     elif vals[:-1] != list(effective):
-                        lost_opts = [v for v in vals[:-1]] == [e.split()[0] for e in effective] and effective
+                        lost_opts = [v for v in vals[:-1]] == [first_word(e) for e in effective] and effective
                         viol.append(('existing-entries-not-relisted-verbatim', 'option-words-dropped' if lost_opts else ('default-literal' if 'DEFAULT' in vals else 'other'),
                                      'Tor reported %r; the SETCONF re-lists %r before the new port %r' % (effective, vals[:-1], vals[-1:])))
                     new = vals[-1] if vals else None
@@ -291,10 +310,10 @@ def run_task(param, acc):
     r = None
     for kind, entries in cfgs:
         effective = entries or (['9050'] if kind == 'default' else ([DEFAULT_OPTS] if kind == 'default-opts' else []))
-        reqs = [None] + sorted(set(e.split()[0] for e in effective if client_can_use(e))) + \
+        reqs = [None] + sorted(set(first_word(e) for e in effective if client_can_use(e))) + \
             sorted(e for e in effective if ' ' in e and client_can_use(e)) + ['9999', '905', '9050']
         # requests that merely begin with (or are the beginning of) an existing entry are different ports
-        reqs += [e.split()[0] + '2' for e in effective if e.startswith('unix:')]
+        reqs += [(first_word(e)[:-1] + '2"' if first_word(e).endswith('"') else first_word(e) + '2') for e in effective if e.startswith('unix:')]
         reqs = [r_ for i_, r_ in enumerate(reqs) if r_ not in reqs[:i_]]
         for requested in reqs:
             for ep in ENTRY_POINTS:
